@@ -53,6 +53,43 @@ func scramble(v reflect.Value, r *gen.Rng) {
 	}
 }
 
+// collectLists returns every non-empty list (slice value) reachable from v, together with a deep copy of each.
+func collectLists(v reflect.Value) (kept, copies []reflect.Value) {
+	var walk func(v reflect.Value, depth int)
+	walk = func(v reflect.Value, depth int) {
+		if depth > 6 {
+			return
+		}
+		switch v.Kind() {
+		case reflect.Pointer, reflect.Interface:
+			if !v.IsNil() {
+				walk(v.Elem(), depth+1)
+			}
+		case reflect.Struct:
+			for i := 0; i < v.NumField(); i++ {
+				walk(v.Field(i), depth+1)
+			}
+		case reflect.Slice:
+			if v.Len() == 0 {
+				return
+			}
+			hdr := reflect.New(v.Type()).Elem()
+			hdr.Set(v) // the caller's own copy of the slice header (same backing array)
+			kept = append(kept, hdr)
+			cp := reflect.ValueOf(val.Clone(hdrPtr(hdr))).Elem()
+			copies = append(copies, cp)
+		}
+	}
+	walk(v, 0)
+	return
+}
+
+func hdrPtr(v reflect.Value) any {
+	p := reflect.New(v.Type())
+	p.Elem().Set(v)
+	return p.Interface()
+}
+
 func g0(e *Env, t *schema.Type) *gen.Rng { return gen.NewRng(e.Seed, "C16", "scramble", t.QName) }
 
 func c16Workload(e *Env) {
@@ -121,6 +158,44 @@ func c16Workload(e *Env) {
 				if d := val.Equal(snap, m); d != "" {
 					r.Violate("C16/decoded-message-changed-by-next-decode/"+t.QName, "C16/decoded-message-changed-by-next-decode/"+t.QName, det("decode another message from the same buffer", d))
 					continue
+				}
+			}
+			// (iv) a twin decoded from the same bytes into another fresh receiver, then scribbled over in place
+			// (every number, text and list element): two results of equal content must not share storage
+			{
+				twin := e.C.New[t.QName]()
+				if err, p := LibDecode(twin, bytes.NewBuffer(append([]byte(nil), w0...))); err == nil && p == nil {
+					scramble(reflect.ValueOf(twin), g0(e, t))
+					evals++
+					if d := val.Equal(snap, m); d != "" {
+						r.Violate("C16/decoded-message-shares-storage-with-equal-twin/"+t.QName, "C16/decoded-message-shares-storage-with-equal-twin/"+t.QName, det("decode the same bytes into a second receiver and overwrite that one in place", d))
+						continue
+					}
+				}
+			}
+			// (v) the lists the caller took out of the message (slice headers) must survive the message being
+			// reused as the receiver for the next, different message: a decoder that refills the old backing
+			// arrays rewrites what the caller kept
+			{
+				kept, keptCopy := collectLists(reflect.ValueOf(m))
+				if len(kept) > 0 {
+					v3 := g.Value(t)
+					if w3, err, p := EncodeFresh(v3); err == nil && p == nil {
+						LibDecode(m, bytes.NewBuffer(append([]byte(nil), w3...)))
+						evals++
+						bad := ""
+						for k := range kept {
+							if d := val.Equal(keptCopy[k].Interface(), kept[k].Interface()); d != "" {
+								bad = d
+								break
+							}
+						}
+						if bad != "" {
+							r.Violate("C16/list-kept-by-caller-rewritten-by-next-decode-into-same-receiver/"+t.QName, "C16/list-kept-by-caller-rewritten/"+t.QName, map[string]any{"type": t.QName, "case": ci, "first_difference_in_a_kept_list": bad, "step": "keep the message's lists, decode another message into the same receiver"})
+							continue
+						}
+						lf["kept-lists-survive-receiver-reuse"]++
+					}
 				}
 			}
 			lf["decode-side-triples-clean"]++
